@@ -189,6 +189,18 @@ func c11Case(run *ev.Run, srv *svc.Server, cs *svc.ClientSet, kind svc.Kind, pro
 			return
 		}
 	}
+	if kind == svc.Bidi && cl.TrailerPost != nil {
+		// values unchanged: reading the trailers again after further Receive
+		// calls past the end of the stream must show the same lists
+		run.Count("trailers.reread.compared", 1)
+		for k, before := range cl.Trailer {
+			if after := cl.TrailerPost.Values(k); !sameList(after, before) {
+				detail["key"], detail["first_read"], detail["after_more_receives"] = k, before, after
+				run.Violation(key+"/trailers-changed", fmt.Sprintf("response trailer %q read %q at the end of the stream and %q after three more Receive calls", k, before, after), detail)
+				return
+			}
+		}
+	}
 	if failing {
 		var ce *connect.Error
 		if !errors.As(cl.Err, &ce) {
